@@ -34,6 +34,7 @@ type Config struct {
 	Verbose       bool
 	KnownOpen     map[string]bool // known-finding ids that are open (vknown returns its condition)
 	Asserts       []string        // assertion-id prefixes the running property selects (nil: all)
+	Deadline      time.Time       // wall-clock limit of the whole check (zero: none)
 	StopFlag      *int32          // shared by the tasks of one check: set once enough new violations were found
 }
 
@@ -317,6 +318,10 @@ func (e *Engine) worker(helper bool) {
 		}
 		if e.res.Paths%64 == 0 && memoryExceeded() && !e.stopAll {
 			e.res.Inconclusive = append(e.res.Inconclusive, "budget: process memory above the limit; exploration stopped")
+			e.stopAll = true
+		}
+		if !e.stopAll && !e.cfg.Deadline.IsZero() && time.Now().After(e.cfg.Deadline) && (len(e.queue) > 0 || e.inflight > 0) {
+			e.res.Inconclusive = append(e.res.Inconclusive, "budget: wall-clock limit of the check reached; exploration stopped")
 			e.stopAll = true
 		}
 		if e.cfg.MaxPaths > 0 && e.res.Paths >= e.cfg.MaxPaths && (len(e.queue) > 0 || e.inflight > 0) {
